@@ -4,15 +4,15 @@
    Models: acc.Decompile (model/Decompile.v), pass.Compile / Eval / ReadCounts / naming passes
    (model/Naming.v), acc.Build (model/Build.v); acc.Translate as the local copy
    proofs/BuildTranslateAux.v (to be unified with model/Translate.v of branch c07c03).
-   The text layer (printer, parser) is not on this branch: the statement about text is
-   C04_full below, proved here under the one hypothesis that loading the printed text of a
-   well-formed tree equals translating the tree (that is C07 round trip composed with C03
-   load_refines). *)
+   The text layer (printer + tabwriter, PEG parser, shared Translate) comes from the merged C07/C03
+   models; C04_roundtrip is the unconditional text-level statement (C04_full instantiated with
+   Printer.print_script and Translate.load_m). *)
 From Coq Require Import String.
 From Coq Require Import List NArith ZArith Bool.
 From AV Require Import model.Proto model.Chain model.Program model.Ir model.Ast
   model.Decompile model.Naming model.Build
   proofs.BuildTranslateAux proofs.DecompileProofs proofs.BuildProofs.
+From AV Require model.Printer model.Translate proofs.SearchBridge.
 Import ListNotations.
 Open Scope Z_scope.
 
@@ -42,20 +42,55 @@ Theorem C04_build_translate : forall p c, wf_program p -> evaluate p = Ok c -> N
 Proof. exact build_translate. Qed.
 Print Assumptions C04_build_translate.
 
-(* The full statement, over a printer and a loader given as functions on bytes. *)
+(* The full statement, over a printer and a loader given as functions on bytes.  The bound says
+   that the chain (length p + 1 elements) fits a Go slice; Translate's element counter is a Go int. *)
 Definition C04_full (print : script -> list N) (load : list N -> outcome (list op * list Z)) : Prop :=
-  forall p c, wf_program p -> evaluate p = Ok c -> NoDup c -> Z.of_nat (length p) < 2 ^ 63 ->
+  forall p c, wf_program p -> evaluate p = Ok c -> NoDup c -> Z.of_nat (length p) + 1 < 2 ^ 63 ->
   exists t, build_program p = Ok t /\ load (print t) = Ok (map cop p, c).
 
-(* partial: text layer as a hypothesis (C07 roundtrip o C03 load_refines on the other branch) *)
-Theorem C04_roundtrip_partial : forall print load,
-  (forall t, wf_script t = true -> load (print t) = translate_eval t) -> C04_full print load.
+(* acc.LoadString (model/Translate.v load_m = parser, Translate, Compile, Evaluate), keeping the
+   program and the chain *)
+Definition load_ops_chain (src : list N) : outcome (list op * list Z) :=
+  obind (Translate.load_m src) (fun r => Ok (snd (fst r), snd r)).
+
+(* the text layer as a hypothesis: how the statement is assembled *)
+Lemma C04_full_from_text_layer : forall print load,
+  (forall t ops c, wf_script t = true -> translate_eval t = Ok (ops, c) ->
+     Z.of_nat (length ops) + 1 < 2 ^ 63 -> load (print t) = Ok (ops, c)) -> C04_full print load.
 Proof.
   intros print load H p c Hwf Hev Hnd Hlen.
-  destruct (build_translate p c Hwf Hev Hnd Hlen) as (t & Eb & Hw & _ & Ee).
-  exists t. split; [exact Eb|]. now rewrite (H t Hw).
+  assert (Hl : Z.of_nat (length p) < 2 ^ 63) by (clear -Hlen; apply Z.lt_trans with (2 := Hlen); apply Z.lt_succ_diag_r).
+  destruct (build_translate p c Hwf Hev Hnd Hl) as (t & Eb & Hw & _ & Ee).
+  exists t. split; [exact Eb|]. apply (H t _ _ Hw Ee). now rewrite map_length.
 Qed.
-Print Assumptions C04_roundtrip_partial.
+
+(* C04 with the real printer (model/Printer.v, tabwriter included), the real parser (model/Peg.v)
+   and the shared Translate/Compile/Evaluate (model/Translate.v): no hypothesis about the text layer.
+   The text-layer step is SearchBridge.aux_load (written on branch c14: the index-only Translate copy
+   of BuildTranslateAux.v is simulated by the object-heap Translate of model/Translate.v, the two
+   wf_script predicates coincide, C07 roundtrip removes printer and parser). *)
+Theorem C04_roundtrip : C04_full Printer.print_script load_ops_chain.
+Proof.
+  apply C04_full_from_text_layer. intros t ops c Hw He Hlen.
+  destruct (SearchBridge.aux_load t ops c Hw He Hlen) as (ir & Hl).
+  unfold load_ops_chain. rewrite Hl. reflexivity.
+Qed.
+Print Assumptions C04_roundtrip.
+
+(* the same, spelled out: Decompile, Build and print succeed, and the bytes load (LoadString) to
+   the identical chain and the same operations up to the order of an addition's operands *)
+Theorem C04_roundtrip_text : forall p c,
+  wf_program p -> evaluate p = Ok c -> NoDup c -> Z.of_nat (length p) + 1 < 2 ^ 63 ->
+  exists text ir, obind (build_program p) (fun t => Ok (Printer.print_script t)) = Ok text /\
+                  Translate.load_m text = Ok (ir, map cop p, c).
+Proof.
+  intros p c Hwf Hev Hnd Hlen.
+  assert (Hl : Z.of_nat (length p) < 2 ^ 63) by (clear -Hlen; apply Z.lt_trans with (2 := Hlen); apply Z.lt_succ_diag_r).
+  destruct (build_translate p c Hwf Hev Hnd Hl) as (t & Eb & Hw & _ & Ee).
+  destruct (SearchBridge.aux_load t (map cop p) c Hw Ee) as (ir & Hld); [now rewrite map_length|].
+  exists (Printer.print_script t), ir. rewrite Eb. split; [reflexivity|exact Hld].
+Qed.
+Print Assumptions C04_roundtrip_text.
 
 (* ---- non-vacuity: a program with a re-used doubling-run intermediate, a folded shift,
    values above 2^8 that get inlined, an all-ones value, and non-canonical operand order ---- *)
